@@ -622,6 +622,37 @@ Proof.
   destruct (backends_is_thissystem _ _ _); [apply orb_true_r|apply andb_false_r].
 Qed.
 
+(* ---------- /proc/<tid>/stat: the task name cannot confuse the parser ---------- *)
+Lemma after_last_rparen_keeps rest best : ~ In 41%N rest -> after_last_rparen rest best = best.
+Proof.
+  revert best. induction rest as [|c r IH]; intros best H; cbn [after_last_rparen]; [reflexivity|].
+  destruct (N.eqb_spec c 41) as [->|_]; [exfalso; apply H; left; reflexivity|]. apply IH. intros Hr. apply H. right. exact Hr.
+Qed.
+Lemma after_last_rparen_app a rest best : ~ In 41%N rest -> after_last_rparen (a ++ 41 :: rest) best = Some rest.
+Proof.
+  revert best. induction a as [|c a IH]; intros best H; cbn [app after_last_rparen].
+  - rewrite N.eqb_refl. now apply after_last_rparen_keeps.
+  - now apply IH.
+Qed.
+Lemma upto_nul_id s : ~ In 0%N s -> upto_nul s = s.
+Proof.
+  induction s as [|c r IH]; intros H; cbn [upto_nul]; [reflexivity|].
+  destruct (N.eqb_spec c 0) as [->|_]; [exfalso; apply H; left; reflexivity|]. f_equal. apply IH. intros Hr. apply H. right. exact Hr.
+Qed.
+(* what follows the name decides alone: for EVERY prefix (pid) and EVERY task name - parentheses, spaces, digits,
+   ") " sequences, empty - the answer is the one computed from the bytes after the closing parenthesis *)
+Lemma parse_stat_ignores_name pre name rest :
+  ~ In 41%N rest -> ~ In 0%N (pre ++ 40 :: name ++ 41 :: rest) -> (List.length (pre ++ 40%N :: name ++ 41%N :: rest) <= 1023)%nat ->
+  parse_stat (pre ++ 40 :: name ++ 41 :: rest) =
+    match skip_fields 36 (tl rest) with Some f => scan_int f | None => None end.
+Proof.
+  intros Hr H0 Hl. unfold parse_stat. rewrite firstn_all2 by exact Hl. rewrite (upto_nul_id _ H0).
+  replace (pre ++ 40 :: name ++ 41 :: rest) with ((pre ++ 40 :: name) ++ 41 :: rest) by (rewrite <- app_assoc; reflexivity).
+  rewrite (after_last_rparen_app (pre ++ 40 :: name) rest None Hr).
+  destruct ((pre ++ 40 :: name) ++ 41 :: rest) eqn:E; [|reflexivity].
+  exfalso. destruct pre; discriminate E.
+Qed.
+
 (* ---------- x86 look_procs against the idealised affinity model ---------- *)
 Lemma bs_inter_subset a b : bs_subset a b = true -> bs_inter a b = a.
 Proof.
@@ -723,8 +754,10 @@ Section L.
   Qed.
   Lemma keeps_get_last tid : keeps (get_tid_last KW kernel tid).
   Proof.
-    intros w Hw. unfold get_tid_last. pose proof (kc_inv (K_lastcpu tid) w eq_refl Hw) as H.
-    destruct (kc KW kernel (K_lastcpu tid) w). cbn [snd] in *. destruct (k_rc k <? 0)%Z; exact H.
+    intros w Hw. unfold get_tid_last. set (t' := if (tid =? 0)%Z then 1%Z else tid).
+    pose proof (kc_inv (K_lastcpu t') w eq_refl Hw) as H.
+    destruct (kc KW kernel (K_lastcpu t') w). cbn [snd] in *. destruct (k_rc k <? 0)%Z; [exact H|].
+    destruct (parse_stat _); exact H.
   Qed.
 
   Section FE.
